@@ -199,10 +199,15 @@ pub fn eval(expr: Node) -> Result<Decimal, Box<dyn error::Error>> {
             }
             Ok(x)
         }
-        Sqrt(sub_expr) => match eval(*sub_expr)?.sqrt() {
-            Some(result) => Ok(result),
-            None => Err("Unable to compute the square root of negative number".into()),
-        },
+        Sqrt(sub_expr) => {
+            let value = eval(*sub_expr)?;
+            // a zero keeps its sign flag in rust_decimal (-0, ceil(-0.5)): it is not a negative number
+            let value = if value.is_zero() { value.abs() } else { value };
+            match value.sqrt() {
+                Some(result) => Ok(result),
+                None => Err("Unable to compute the square root of negative number".into()),
+            }
+        }
         Root(n_th_expr, x_expr) => {
             let x = eval(*x_expr)?;
             let n_th = eval(*n_th_expr)?;
